@@ -59,6 +59,22 @@ fn gdt_run<const MAX: usize>(mode: u64, l: &[u64]) -> Vec<i128> {
             if g2.entries() != g.entries() || g2.limit() != g.limit() {
                 v.push(-77);
             }
+            // ... also when cloned INTO an existing table with fewer or more used slots (Clone::clone_from)
+            if let Some(mut g3) = catch(GlobalDescriptorTable::<MAX>::empty) {
+                for filler in 0..(l.len() as u64 % 4) {
+                    let _ = std::panic::catch_unwind(AssertUnwindSafe(|| g3.append(mk_desc(0, 0x00af_9b00_0000_ffff ^ filler, 0))));
+                }
+                g3.clone_from(&g);
+                if g3.entries() != g.entries() || g3.limit() != g.limit() {
+                    v.push(-77);
+                }
+                let mut g4 = g.clone();
+                let fresh = GlobalDescriptorTable::<MAX>::empty();
+                g4.clone_from(&fresh);
+                if g4.entries() != fresh.entries() || g4.limit() != fresh.limit() {
+                    v.push(-77);
+                }
+            }
             v
         }
         _ => match catch(|| GlobalDescriptorTable::<MAX>::from_raw_entries(l)) {
